@@ -430,9 +430,20 @@ def prove_close(ctx: Ctx, name, fn, args, sp: Space, *, eps=1e-9, select=None, s
         Mt = tw.M.tocsr(); Mt.sum_duplicates()
         s, e = Mt.indptr[rid], Mt.indptr[rid + 1]
         const, cols, vals, slack, L, H = _row_query_terms(sp, Mt.indices[s:e], Mt.data[s:e], tau)
-        # twin must be *exactly* satisfiable: no slack subtraction
-        text, _ = _lra_batch(sp, [(rid, const, cols, vals, 0.0, tau, L, H)])
-        verdict, _ = smt.check_text(text, 'QF_LRA', sample=False, tag='(vacuity-twin)')
+        # twin must be satisfiable for the TRUE residual: dropped terms are bounded by `slack`, so ask the kept terms to exceed tau + slack
+        if len(cols) > 4000:
+          # very large rows: exhibit a concrete witness point instead (evaluated on the normal form) and let the solver confirm the ground fact
+          verdict = 'unknown'
+          for _ in range(20):
+            xv = sp.random_point(ctx.rng)
+            val = float(tw.evaluate(xv).reshape(-1)[rid])
+            if abs(val) > tau:
+              text = f'(assert (or (> {smt.rat(val)} {smt.rat(tau)}) (< {smt.rat(val)} {smt.rat(-tau)})))'
+              verdict, _ = smt.check_text(text, 'QF_LRA', sample=False, tag='(vacuity-twin)')
+              break
+        else:
+          text, _ = _lra_batch(sp, [(rid, const, cols, vals, 0.0, tau + slack, L, H)])
+          verdict, _ = smt.check_text(text, 'QF_LRA', sample=False, tag='(vacuity-twin)')
         if verdict != 'sat':
           ctx.error(name, f'vacuity twin not sat ({verdict}) — harness cannot see a 1e-6 perturbation')
           ok = False
